@@ -277,8 +277,9 @@ class Oracle:
             self.fail(err[3], f"update #{err[0]} of the history raised {err[1]}: {err[2]}", dict(case, failing_op=err[0]))
             return None, exp
         # only worlds that go to the correspondence need the flattened outcome (a `bits` cube has no integer values)
-        out = None if (W.bits or W.raw) else \
-            (ilist(c.data), c.dm, c.period, ilist(np.atleast_1d(c._fph_shifts)), ilist(np.atleast_1d(c._tph_shifts)))
+        # (the Gallina model rotates lists of integers: a `bits` cube goes there as its uint32 patterns; raw targets have no Q literal)
+        out = None if W.raw else \
+            (W.dump(c.data), float(c.dm), float(c.period), ilist(np.atleast_1d(c._fph_shifts)), ilist(np.atleast_1d(c._tph_shifts)))
         if c.data.shape != W.shape or c.data.dtype != np.float32:
             self.fail("shape", "shape or dtype of the cube changed", dict(case, shape=list(c.data.shape), dtype=str(c.data.dtype)))
             return out, exp
@@ -327,8 +328,12 @@ def q(x):
     return f"(Qmake ({f.numerator}) {f.denominator})"
 
 
-def coq_world(W, mod, cases):
-    """one Module: world definitions, tables over every combination of the world's values, the cases"""
+LAW_REL = "(1 # 1000000)"      # float32 evaluation error allowed by the in-Coq law check, relative (as in law_anchor)
+
+
+def coq_world(W, mod, cases, mode32=False, law=True):
+    """one Module: world definitions, tables over every combination of the world's values, the cases.
+    mode32: the cases are compared with the int32 machine run32 (Model/C17_Int32.v) and the unbounded machine is only counted"""
     ni, nb, nbin = W.shape
     dvals = sorted(set([W.dm0] + W.dms + [v for ops, _o, _e in cases for k, v in ops if k == "dm"]))
     pvals = sorted(set([W.p0] + W.ps + [v for ops, _o, _e in cases for k, v in ops if k == "p"]))
@@ -338,6 +343,8 @@ def coq_world(W, mod, cases):
             if a - b == 0:
                 continue
             for per in pvals:
+                if per == 0:        # bin width 0: only a (refuted) current-period reference could ask for it
+                    continue
                 kq = (Fraction(a) - Fraction(b), Fraction(per) / nbin)
                 if kq in seen:
                     continue
@@ -347,6 +354,8 @@ def coq_world(W, mod, cases):
     for newp in pvals:
         for r1 in pvals:
             for r2 in pvals:
+                if r1 == 0 or r2 == 0:      # a zero reference period: ZeroDivisionError in the code, None in the model, no table entry
+                    continue
                 db = dbins_of(W, newp, r1, r2)
                 kq = (Fraction(newp) / Fraction(r1) - 1) * Fraction(W.hdr.tobs) * nbin / Fraction(r2)
                 if (db == 0) != (kq == 0):
@@ -355,7 +364,7 @@ def coq_world(W, mod, cases):
                     continue
                 seen.add(kq)
                 ttab.append(f"({q(kq)}, {vlib.zlist(p_table_value(W, db))})")
-    cube = "[" + ";\n  ".join("[" + "; ".join(vlib.zlist(W.cube0[i, b]) for b in range(nb)) + "]" for i in range(ni)) + "]"
+    cube = "[" + ";\n  ".join("[" + "; ".join(vlib.zlist(W.dump(W.cube0[i, b])) for b in range(nb)) + "]" for i in range(ni)) + "]"
     L = [f"Module {mod}.",
          f"Definition c0 : cube := {cube}.",
          "Definition Ftab : list (Q * Q * list Z) := [" + ";\n ".join(ftab) + "].",
@@ -375,9 +384,22 @@ def coq_world(W, mod, cases):
         cl.append(f"({o}, {r}, {specs[sk][0]})")
     L.append(";\n".join(cl))
     L.append("].")
-    L.append("Definition specs : list (list Z) := [" + ";\n ".join(vlib.zlist(ilist(e)) for _i, e in sorted(specs.values(), key=lambda t: t[0])) + "].")
+    L.append("Definition specs : list (list Z) := [" + ";\n ".join(vlib.zlist(W.dump(e)) for _i, e in sorted(specs.values(), key=lambda t: t[0])) + "].")
     L.append(f"Definition bad := corr_bad gen_refs {ni} {nb} {nbin} {q(W.hdr.tobs)} Ftab Ttab c0 {q(W.dm0)} {q(W.p0)} specs cases.")
-    L.append("Eval vm_compute in (Z.of_nat (length cases) :: 1000000 :: fst bad ++ 1000000 :: snd bad).")
+    if mode32:
+        # [bad32; marker; cases on which the unbounded machine differs from the implementation]
+        L.append(f"Definition bad32 := corr_bad32 gen_refs {ni} {nb} {nbin} {q(W.hdr.tobs)} Ftab Ttab c0 {q(W.dm0)} {q(W.p0)} cases.")
+        L.append("Eval vm_compute in (Z.of_nat (length cases) :: 1000000 :: bad32 ++ 1000000 :: fst bad).")
+    else:
+        L.append("Eval vm_compute in (Z.of_nat (length cases) :: 1000000 :: fst bad ++ 1000000 :: snd bad).")
+    # the law anchors in exact arithmetic: every table entry is the nearest integer to the dispersion drift / the linear drift
+    h = W.hdr
+    if mode32 or not law:   # mode32: tables of the excluded regime hold values beyond int32 (the cast is undefined there): no law to
+        # check; law=False: a later chunk of a world whose first chunk checks the same tables
+        L.append("Definition lawbad : list Z * list Z := ([], []).")
+    else:
+        L.append(f"Definition lawbad := law_bad (4148808 # 1000) {q(h.fch1)} {q(h.foff * h.nchans / nb)} {ni} {nb} {LAW_REL} Ftab Ttab.")
+    L.append("Eval vm_compute in (fst lawbad ++ 1000000 :: snd lawbad).")
     if W.name == "A":
         L.append("Eval vm_compute in (if w_tables_ok Ftab Ttab then [1] else [0]).")
     L.append(f"End {mod}.")
@@ -385,7 +407,8 @@ def coq_world(W, mod, cases):
 
 
 HEAD = ("From Coq Require Import ZArith QArith List Bool.\n"
-        "Require Import SPP.Base.Rt SPP.Gen.FoldRefs SPP.Model.C17_FoldedCube.\nImport ListNotations.\nOpen Scope Z_scope.\n")
+        "Require Import SPP.Base.Rt SPP.Gen.FoldRefs SPP.Model.C17_FoldedCube SPP.Model.C17_Int32 SPP.Model.C17_Laws.\n"
+        "Import ListNotations.\nOpen Scope Z_scope.\n")
 
 
 def families(W, depth):
@@ -430,6 +453,11 @@ def run(R: vlib.Run):
                   "and by the correspondence run: cube, dm, period, _fph_shifts, _tph_shifts, exceptions)",
                   "params.compute_dmdelays and the float32 period-drift expression are arbitrary functions F, T in the theorems "
                   "(the dispersion law itself is C09's subject); np.roll is modelled by list rotation",
+                  "Model/C17_Int32.v (the three int32 operations of the bookkeeping, tied to the code by the X32 correspondence), "
+                  "Model/C17_Header.v + the generator's header frame (fields read; stores, rebinding, method calls, escapes of the header "
+                  "in the four update methods -> Gen/FoldRefs.v header_writes), Model/C17_Laws.v (dispersion drift with sub-band "
+                  "frequency fch1 + b*foff*nchans/nsubbands and K = 4.148808e3; linear period drift) checked in exact arithmetic "
+                  "against the implementation's delay tables",
                   "correspondence harness and oracle tools/harness/props/c17.py"]
     R.assume += ["DM and period targets are finite Python floats; folding period non-zero; every cube dimension >= 1",
                  "float subtraction newdm - ref and the test dbins == 0 agree with exact rational arithmetic on whether the result is zero "
@@ -437,8 +465,11 @@ def run(R: vlib.Run):
                  "nobody writes _data/_fph_shifts/_tph_shifts from outside the class (replace_nan / centre are not part of the histories)",
                  "every shift, and every difference of two shifts along a history, stays below 2**30 bins in magnitude "
                  "(|tobs * nbins * (period/period_fold - 1) / period_fold| < 2**30 and likewise the DM drift of every sub-band): "
-                 "_fph_shifts / _tph_shifts and the increments are int32 and wrap silently beyond, the model keeps them in Z; the "
-                 "generators (small scope and at scale) never ask for more than 2**29 bins",
+                 "_fph_shifts / _tph_shifts and the increments are int32 and wrap silently beyond.  Props/C17.v: under this bound the "
+                 "int32 machine run32 (Model/C17_Int32.v) IS the unbounded machine of the theorems (C17_int32_faithful, "
+                 "C17_int32_history_independent), beyond it is history dependent (C17_int32_wrap_refuted); run32 is run against the "
+                 "implementation beyond the bound on world X32 (correspondence only).  The oracle generators (small scope and at "
+                 "scale) never ask for more than 2**29 bins",
                  "the array handed to the constructor is used by nobody else afterwards: a float32 ndarray is adopted without a copy "
                  "and rotated in place (every cube of the oracle gets a private input)"]
     R.exhaustive = True
@@ -548,8 +579,9 @@ def run(R: vlib.Run):
             h = [(("dm", rng.choice(W.dms)) if rng.random() < 0.5 else ("p", rng.choice(W.ps))) for _ in range(n)]
             out, exp = orc.check(W, h, extras=True)
             cases.append((h, out, exp))
-        if small:
-            corr.append((W, cases))
+        if small or (W.bits and wi % 8 == 1):     # bit-pattern cubes go to the model as their uint32 patterns
+            W.lawcheck = wi % 6 == 0              # in-Coq law check of the tables: every third of these worlds (exact Q arithmetic on
+            corr.append((W, cases))               # 225 table entries of random floats costs about a second per world)
     # oracle-only worlds (the Gallina model has rational targets, integer cubes and no acceleration): the regimes of "arbitrary
     # target values" the alphabets above never reach.  Typed targets are exactly representable in float32, so the value of a target
     # does not depend on its type.  Largest drift asked for: 3200 bins (far below the int32 limit of R.assume).
@@ -561,9 +593,33 @@ def run(R: vlib.Run):
         World("G", hD, (2, 3, 6), 100.0, 0.1, speccube((2, 3, 6)), [100.0, 71.25, 135.5, 99.0], [0.1, 0.1002, 0.0997, 0.10001],
               bits=True, accel=1.0),
     ]
+    # float targets of the same regimes (negative DM, period <= 0 and 2x the folding period, profiles of one bin) and the
+    # bit-pattern cube built with accel: these the model can carry -> correspondence as well
+    extra += [
+        World("F4", hA, (3, 3, 1), 10.0, 0.5, randcube((3, 3, 1)), [10.0, -5.0, 0.0, -40.0], [0.5, 1.0, -0.25, 0.0]),
+        World("F5", hA, (2, 2, 8), 10.0, 0.5, randcube((2, 2, 8)), [10.0, -5.0, 30.0, -40.0], [0.5, 1.0, -0.5, 0.0]),
+    ]
     for W in extra:
+        cases, d3 = [], []
         for h in families(W, 3):
-            orc.check(W, h, extras=True)
+            out, exp = orc.check(W, h, extras=True)
+            (cases if len(h) <= 2 else d3).append((h, out, exp))
+        if not W.raw:
+            corr.append((W, cases + (rng.sample(d3, 25) if quick else d3)))
+    # the excluded regime of R.assume (shifts beyond 2**30 bins), NOT searched by the oracle: the implementation is only compared
+    # with the int32 machine run32 of Model/C17_Int32.v (Props/C17.v: C17_int32_faithful / C17_int32_wrap_refuted), which must
+    # reproduce it exactly, wrap included; the unbounded machine must differ on some of these cases (else nothing wrapped)
+    hX = {"nchans": 64, "foff": -0.5, "fch1": 1500.0, "tsamp": 6.4e-5, "nsamples": 56250000}
+    pX = 0.0016
+    WX = World("X32", hX, (4, 1, 1000), 0.0, pX, randcube((4, 1, 1000)), [0.0], [pX, 2 * pX, 0.5 * pX, 1.5 * pX])
+    casesX = []
+    for h in ([("p", 2 * pX), ("p", 0.5 * pX)], [("p", 0.5 * pX)], [("p", 2 * pX), ("p", 0.5 * pX), ("p", pX)], [("p", 2 * pX)],
+              [("p", 1.5 * pX), ("p", 0.5 * pX), ("p", 2 * pX), ("dm", 0.0)], [("p", 0.5 * pX), ("p", 2 * pX), ("p", 2 * pX)]):
+        R.tick(dict(WX.describe(), cube0="random integers", ops=h))
+        c, err = run_impl(WX, h)
+        casesX.append((h, None if err else (ilist(c.data), float(c.dm), float(c.period), ilist(np.atleast_1d(c._fph_shifts)),
+                                             ilist(np.atleast_1d(c._tph_shifts))), WX.cube0))
+    corr.append((WX, casesX, True))
     R.extra_cov["oracle_failures_by_key"] = dict(sorted(orc.count.items()))
     import time
     t_or = time.time()
@@ -578,13 +634,14 @@ def run(R: vlib.Run):
     # ---- correspondence -------------------------------------------------------------------------------------
     R.need(["Model/C17_FoldedCube.vo"])
     files, cur, curn = [], [], 0
-    for wi, (W, cases) in enumerate(corr):
+    for wi, ent in enumerate(corr):
+        W, cases, m32 = ent[0], ent[1], (len(ent) > 2 and ent[2])
         for k in range(0, len(cases), CHUNK):
             chunk = cases[k:k + CHUNK]
-            if curn + len(chunk) > 450 and cur:
+            if (curn + len(chunk) > 320 or len(cur) >= 6) and cur:
                 files.append(cur)
                 cur, curn = [], 0
-            cur.append((W, f"W{wi}_{k}", chunk))
+            cur.append((W, f"W{wi}_{k}", chunk, m32))
             curn += len(chunk)
     if cur:
         files.append(cur)
@@ -592,24 +649,24 @@ def run(R: vlib.Run):
     def one(arg):
         fi, mods = arg
         try:
-            text = HEAD + "\n".join(coq_world(W, mod, chunk) for W, mod, chunk in mods)
+            text = HEAD + "\n".join(coq_world(W, mod, chunk, m32, law=mod.endswith("_0") and getattr(W, "lawcheck", True)) for W, mod, chunk, m32 in mods)
         except Exception as e:  # noqa: BLE001
             return fi, mods, 1, f"harness: {type(e).__name__}: {e}"
         rc, out = vlib.coq_run(f"c17_{fi}", text, timeout=600)
         return fi, mods, rc, out
 
-    ncases = nbad = nspec = 0
-    with ThreadPoolExecutor(max_workers=4) as ex:
+    ncases = nbad = nspec = nlaw = n32 = nwrapped = 0
+    with ThreadPoolExecutor(max_workers=6) as ex:
         results = list(ex.map(one, list(enumerate(files))))
     wit_checked = False
     for fi, mods, rc, out in results:
         vals = vlib.parse_eval(out) if rc == 0 else []
-        expect = sum(2 if W.name == "A" else 1 for W, _m, _c in mods)
+        expect = sum(3 if W.name == "A" else 2 for W, _m, _c, _m32 in mods)
         if rc != 0 or len(vals) != expect:
             R.red.append(f"correspondence: Corr/c17_{fi} did not evaluate: " + out[-400:])
             continue
         vi = 0
-        for W, mod, chunk in mods:
+        for W, mod, chunk, m32 in mods:
             nums = [int(x) for x in re.findall(r"-?\d+", vals[vi])]
             vi += 1
             n, rest = nums[0], nums[2:]
@@ -618,6 +675,26 @@ def run(R: vlib.Run):
             if n != len(chunk):
                 R.red.append(f"correspondence: {mod}: {n} cases evaluated, {len(chunk)} sent")
             ncases += n
+            # the law anchors, exact arithmetic in Coq over the implementation's delay tables
+            lnums = [int(x) for x in re.findall(r"-?\d+", vals[vi])]
+            vi += 1
+            lcut = lnums.index(1000000)
+            for nm, idx in (("dispersion drift (compute_dmdelays on the sub-band frequencies)", lnums[:lcut]),
+                            ("linear period drift round(i*dbins/nsubints)", lnums[lcut + 1:])):
+                if idx:
+                    nlaw += len(idx)
+                    R.disagree(f"law anchor (Coq, exact): {len(idx)} entries of the implementation's delay table are not the nearest "
+                               f"integer to the {nm}", dict(W.describe(), table_entries=idx[:5]))
+            if m32:
+                # bad_model = cases where run32 differs from the implementation; bad_spec = cases where the unbounded machine differs
+                n32 += n
+                nwrapped += len(bad_spec)
+                for bi in bad_model[:3]:
+                    h, o, _e = chunk[bi]
+                    R.disagree("Gallina int32 machine run32 and the implementation end differently beyond 2**30 bins",
+                               dict(W.describe(), cube0="random integers", ops=[[k, v] for k, v in h]))
+                nbad += len(bad_model)
+                continue
             for bi in bad_model[:3]:
                 h, o, e = chunk[bi]
                 R.disagree("Gallina FoldedCube model and the implementation end differently",
@@ -639,6 +716,11 @@ def run(R: vlib.Run):
         R.red.append("witness tables were not checked")
     R.extra_cov["correspondence_cases"] = ncases
     R.extra_cov["traces_validated_against_impl"] = ncases
+    if n32 and not nwrapped and not R.red:
+        R.red.append("int32 correspondence: no case of world X32 wrapped (the unbounded machine agrees with the implementation everywhere)")
+    R.extra_cov["int32_correspondence_cases"] = n32
+    R.extra_cov["int32_cases_where_unbounded_machine_differs"] = nwrapped
+    R.extra_cov["law_anchor_table_mismatches"] = nlaw
     R.extra_cov["correspondence_model_mismatches"] = nbad
     R.extra_cov["oracle_vs_gallina_spec_mismatches"] = nspec
     return R
